@@ -10,7 +10,7 @@ from mcv.gen import containers as C
 from mcv.gen import cue as Q
 from mcv.checks.c10 import parse_table
 
-ENCODINGS = ["raw", "raw2352", "mdx", "cue_raw", "cue_2352", "cue_subdir", "cue_cosmetic", "mdx20", "raw2352_mixed", "cue_2352_mixed"]
+ENCODINGS = ["raw", "raw2352", "mdx", "cue_raw", "cue_2352", "cue_subdir", "cue_cosmetic", "mdx20", "raw2352_mixed", "cue_2352_mixed", "cue_numbers"]
 
 
 def write_encodings(d, payload):
@@ -49,7 +49,10 @@ def write_encodings(d, payload):
     with open(os.path.join(d, "d.cue"), "wb") as f:
         f.write(b'rem made by some tool\r\nTitle "disc"\r\nperformer "x"\r\nRem FILE "z.bin" BINARY\r\n  file "a.bin" binary  \r\n\r\n'
                 b'\ttrack 01 mode1/2048\r\n      flags dcp\r\n      Index 01 00:00:00  \r\n\r\n')
-    return {"raw2352_mixed": os.path.join(d, "m.bin"), "cue_2352_mixed": os.path.join(d, "m.cue"), "mdx20": os.path.join(d, "y.mdx"), "cue_cosmetic": os.path.join(d, "d.cue"), "raw": os.path.join(d, "raw.img"), "raw2352": os.path.join(d, "raw2352.bin"), "mdx": os.path.join(d, "x.mdx"),
+    # track and index numbers written without their leading zero (and a three-digit form in the header remark)
+    with open(os.path.join(d, "n.cue"), "w") as f:
+        f.write('REM TRACK 001\nFILE "b.bin" BINARY\n  TRACK 1 MODE1/2352\n    INDEX 1 00:00:00\n')
+    return {"cue_numbers": os.path.join(d, "n.cue"), "raw2352_mixed": os.path.join(d, "m.bin"), "cue_2352_mixed": os.path.join(d, "m.cue"), "mdx20": os.path.join(d, "y.mdx"), "cue_cosmetic": os.path.join(d, "d.cue"), "raw": os.path.join(d, "raw.img"), "raw2352": os.path.join(d, "raw2352.bin"), "mdx": os.path.join(d, "x.mdx"),
             "cue_raw": os.path.join(d, "a.cue"), "cue_2352": os.path.join(d, "b.cue"), "cue_subdir": os.path.join(d, "sub", "c.cue")}
 
 
@@ -172,7 +175,7 @@ class Check(CheckBase):
             "chains/window/header sweeps of C02 (quick: every 12th; odd cluster counts make cluster reads straddle 2048-byte "
             "user-data boundaries) x trailing bytes {0,1,2047,2048} (zero and non-zero), one small image with every trailing sector count 0..127 "
             "(thorough 0..511), truncated payloads (whole sectors dropped; the image ending inside the audio of its last sample, or right behind the last sector of a sample that fills it exactly / nearly; Roland images ending 1..2048 bytes before the end of their last cluster; Roland images with orphan performances), x the encodings {raw, MODE1/2352, "
-            "MDX (version 2.1 with the descriptor behind the payload; version 2.0 without), 2352-byte sectors followed by an audio track (bare and through its cue sheet), cue->raw, cue->2352, cue in another directory naming its bin with a path, cue->raw written with lower/mixed case "
+            "MDX (version 2.1 with the descriptor behind the payload; version 2.0 without), 2352-byte sectors followed by an audio track (bare and through its cue sheet), cue->raw, cue->2352, cue in another directory naming its bin with a path, cue->2352 with track / index numbers written without leading zero, cue->raw written with lower/mixed case "
             "keywords, header and unknown lines, tabs, blank lines and CR LF} as real files: same image class, character-identical ls text at every node reachable "
             "through the printed names, identical exported trees (paths + bytes); cue dispatch: all combinations of "
             "AUDIO/MODE1/2352/MODE2/2352 modes over <=3 tracks; long sheets: n titled audio tracks (+ a data track last) for "
